@@ -210,6 +210,36 @@ theorem C02_NZ_of_phase_weights_small (am ph : PRBM ℝ n h a)
     _ < 2 * Real.pi := hU k
     _ = Real.pi * 2 := by ring
 
+/-- sufficient condition on the AMPLITUDE network only (audit item C02-1): the guard can fail only at
+`x_k = 0`, so it holds whenever no auxiliary unit has `x_k = ((U_λ v + d_λ) + (U_λ v' + d_λ))_k / 2 = 0` —
+whatever the phase network is (in particular for phase weights of magnitude 30, where
+`C02_NZ_of_phase_weights_small` does not apply). -/
+theorem C02_NZ_of_x_ne_zero (am ph : PRBM ℝ n h a) (v vp : Fin n → ℝ)
+    (hx : ∀ k, piArgRe am v vp k ≠ 0) : NZ am ph v vp :=
+  fun k h0 => hx k (C02_guard_fails_only_at _ _ h0).1
+
+/-- the same condition written on the parameters: for a pair of basis states `x_k = 0` is the hyperplane
+`Σ_j U_λ[k,j] (σ_j + τ_j) + 2 d_λ[k] = 0` in the amplitude network's auxiliary weights and bias. Off these
+finitely many hyperplanes (`a · 3ⁿ` of them: `σ + τ ∈ {0,1,2}ⁿ`) the guard holds for every pair of basis
+states and EVERY phase network. -/
+theorem C02_NZ_of_amp_off_hyperplanes (am ph : PRBM ℝ n h a)
+    (hU : ∀ (k : Fin a) (σ τ : Fin n → Bool),
+      ∑ j, am.U k j * (bits σ j + bits τ j) + 2 * am.d k ≠ 0) (σ τ : Fin n → Bool) :
+    NZ am ph (bits σ) (bits τ) := by
+  apply C02_NZ_of_x_ne_zero
+  intro k hk
+  apply hU k σ τ
+  have e : piArgRe am (bits σ) (bits τ) k
+      = (∑ j, am.U k j * (bits σ j + bits τ j) + 2 * am.d k) / 2 := by
+    simp only [piArgRe, two_eq, PRBM.preactA_eq]
+    have : ∑ j, am.U k j * (bits σ j + bits τ j)
+        = ∑ j, bits σ j * am.U k j + ∑ j, bits τ j * am.U k j := by
+      rw [← Finset.sum_add_distrib]
+      exact Finset.sum_congr rfl (fun j _ => by ring)
+    rw [this]; ring
+  rw [e] at hk
+  linarith [(div_eq_zero_iff.mp hk).resolve_right (by norm_num)]
+
 /-! ### C02.2 — entry for entry the partial trace over the auxiliary units -/
 
 /-- **C02.2** `rho v v' = Σ_{aux ∈ 𝔹ᴬ} φ(v,aux) · conj φ(v',aux)` for all real visible vectors. -/
@@ -394,6 +424,28 @@ theorem C02_posSemidef_of_phase_weights_small (am ph : PRBM ℝ n h a)
     (hU : ∀ k, ∑ j, |ph.U k j| < 2 * Real.pi) : (rhoFullC am ph).PosSemidef :=
   C02_posSemidef am ph (C02_NZ_of_phase_weights_small am ph hU)
 
+/-- **C02.3d** (audit item C02-1) positive semidefinite under a condition on the amplitude network's auxiliary
+pre-activations only: no pair of basis states with `x_k = 0`. No restriction on the phase network. -/
+theorem C02_posSemidef_of_x_ne_zero (am ph : PRBM ℝ n h a)
+    (hx : ∀ (k : Fin a) (σ τ : Fin n → Bool), piArgRe am (bits σ) (bits τ) k ≠ 0) :
+    (rhoFullC am ph).PosSemidef :=
+  C02_posSemidef am ph (fun σ τ => C02_NZ_of_x_ne_zero am ph _ _ (fun k => hx k σ τ))
+
+/-- **C02.3e** … and on the parameters: off the hyperplanes `Σ_j U_λ[k,j] (σ_j + τ_j) + 2 d_λ[k] = 0`. -/
+theorem C02_posSemidef_of_amp_off_hyperplanes (am ph : PRBM ℝ n h a)
+    (hU : ∀ (k : Fin a) (σ τ : Fin n → Bool),
+      ∑ j, am.U k j * (bits σ j + bits τ j) + 2 * am.d k ≠ 0) :
+    (rhoFullC am ph).PosSemidef :=
+  C02_posSemidef am ph (C02_NZ_of_amp_off_hyperplanes am ph hU)
+
+/-- **C02.2c** the partial-trace identity for every pair of basis states under the same parameter condition. -/
+theorem C02_rho_eq_partial_trace_of_amp_off_hyperplanes (am ph : PRBM ℝ n h a)
+    (hU : ∀ (k : Fin a) (σ τ : Fin n → Bool),
+      ∑ j, am.U k j * (bits σ j + bits τ j) + 2 * am.d k ≠ 0) (σ τ : Fin n → Bool) :
+    rhoC am ph (bits σ) (bits τ)
+      = ∑ aux : Fin a → Bool, purAmp am ph (bits σ) aux * conj (purAmp am ph (bits τ) aux) :=
+  C02_rho_eq_partial_trace am ph _ _ (C02_NZ_of_amp_off_hyperplanes am ph hU σ τ)
+
 /-! ### C02.5 — the trace -/
 
 /-- **C02.5** (no guard) the real parts of the diagonal of `rho(space, space)` sum to the reported
@@ -509,6 +561,24 @@ example :
   refine ⟨C02_posSemidef_of_phase_weights_small am ph (fun k => ?_), C02_hermitian am ph⟩
   have hpi := Real.two_le_pi
   fin_cases k <;> simp [ph, Fin.sum_univ_two] <;> norm_num <;> linarith
+
+/-- non-vacuity of `C02_posSemidef_of_amp_off_hyperplanes` in the quantifier's magnitude-30 regime: amplitude
+auxiliary weights all 30 and biases 7.3 (every `x_k ≥ 7.3 > 0`), the PHASE network completely arbitrary
+(e.g. weights of magnitude 30, where `Σ_j |U_μ k j| < 2π` fails): positive semidefinite for every architecture. -/
+example (am ph : PRBM ℝ n h a) (hU : ∀ k j, am.U k j = 30) (hd : ∀ k, am.d k = 7.3) :
+    (rhoFullC am ph).PosSemidef := by
+  apply C02_posSemidef_of_amp_off_hyperplanes
+  intro k σ τ
+  have h0 : 0 ≤ ∑ j, am.U k j * (bits σ j + bits τ j) := by
+    apply Finset.sum_nonneg
+    intro j _
+    rw [hU]
+    have h1 : (0 : ℝ) ≤ bits σ j := by simp only [bits, bit]; split_ifs <;> norm_num
+    have h2 : (0 : ℝ) ≤ bits τ j := by simp only [bits, bit]; split_ifs <;> norm_num
+    positivity
+  rw [hd]
+  intro hcon
+  linarith
 
 /-- the guard is not vacuous either way: at `x = 0`, `y = π` the excluded point `1 + e^{iπ} = 0` is real. -/
 example : (1 : ℂ) + Complex.exp (((0 : ℝ) : ℂ) + ((Real.pi : ℝ) : ℂ) * I) = 0 := by
